@@ -1,0 +1,23 @@
+//go:build verif
+
+// Contracts for package postprocessor (comment-only; compiled to nothing).
+
+package postprocessor
+
+// After UnreverseEdges no edge is flagged reversed, and exactly the edges that were flagged have their ends swapped
+// back - so every edge again runs in the direction it was given in.
+//@ func UnreverseEdges
+//@   requires g != nil && edgesOK(g)
+//@   modifies Edge.From, Edge.To, Edge.IsReversed, Node.In, Node.Out, Elems[*Edge], alloc
+//@   ensures[same_edges] len(g.Edges) == old(len(g.Edges)) && (forall i int :: 0 <= i && i < len(g.Edges) ==> g.Edges[i] == old(g.Edges[i]))
+//@   ensures[none_reversed] forall i int :: 0 <= i && i < len(g.Edges) ==> !g.Edges[i].IsReversed
+//@   ensures[direction] forall i int :: 0 <= i && i < len(g.Edges) ==>
+//@       (old(g.Edges[i].IsReversed) ? (g.Edges[i].From == old(g.Edges[i].To) && g.Edges[i].To == old(g.Edges[i].From))
+//@                                   : (g.Edges[i].From == old(g.Edges[i].From) && g.Edges[i].To == old(g.Edges[i].To)))
+//@   loop range(g.Edges)#1 index c
+//@     invariant len(g.Edges) == old(len(g.Edges)) && (forall k int :: 0 <= k && k < len(g.Edges) ==> g.Edges[k] == old(g.Edges[k]) && g.Edges[k].From != nil && g.Edges[k].To != nil)
+//@     invariant forall k int :: 0 <= k && k < c ==> !g.Edges[k].IsReversed
+//@       && (old(g.Edges[k].IsReversed) ? (g.Edges[k].From == old(g.Edges[k].To) && g.Edges[k].To == old(g.Edges[k].From))
+//@                                      : (g.Edges[k].From == old(g.Edges[k].From) && g.Edges[k].To == old(g.Edges[k].To)))
+//@     invariant forall k int :: c <= k && k < len(g.Edges) ==> g.Edges[k].IsReversed == old(g.Edges[k].IsReversed) && g.Edges[k].From == old(g.Edges[k].From) && g.Edges[k].To == old(g.Edges[k].To)
+//@     invariant allocatedArr(g.Edges) && (forall n *Node :: arr(n.In) != arr(g.Edges) && arr(n.Out) != arr(g.Edges))
